@@ -117,6 +117,10 @@ pub struct Inj {
     /// after this injection the module is encoded once (output discarded) before the plan continues
     #[serde(default)]
     pub encode_after: bool,
+    /// iterator paths: `finish_instr()` is called on the iterator right after the injection (the
+    /// instruction's mode is reset; what was injected stays)
+    #[serde(default)]
+    pub finish: bool,
 }
 
 #[derive(Clone, Debug, Serialize, Deserialize)]
@@ -318,6 +322,9 @@ pub fn apply_and_encode(bytes: &[u8], plan: &[Inj], api: Api, encodes: usize) ->
                             }
                         }
                     }
+                    if inj.finish {
+                        it.finish_instr();
+                    }
                 }
                 Api::ModAt | Api::ModInjectAt | Api::ModAddInstrAt => {
                     let module = module_holder.as_mut().unwrap();
@@ -411,6 +418,9 @@ pub fn apply_and_encode(bytes: &[u8], plan: &[Inj], api: Api, encodes: usize) ->
                                 }
                             }
                         }
+                    }
+                    if inj.finish {
+                        it.finish_instr();
                     }
                 }
             }
@@ -703,7 +713,7 @@ fn c15_plans(n_ops: usize, p: usize) -> Vec<Vec<Inj>> {
             sites.push((at, m));
         }
     }
-    let mk = |k: usize, s: &(usize, SMode)| Inj { at: s.0, mode: s.1, c: 0x7100 + k as i32, drop_first: false, retract: false, encode_after: false };
+    let mk = |k: usize, s: &(usize, SMode)| Inj { at: s.0, mode: s.1, c: 0x7100 + k as i32, drop_first: false, retract: false, encode_after: false, finish: false };
     let compatible = |a: &(usize, SMode), b: &(usize, SMode)| -> bool {
         // alternate and removal on one site: a removal that comes LAST leaves nothing of the replacement
         // requested before it (the caller's last word is "remove"; `empty_alternate` is documented as
@@ -740,12 +750,13 @@ pub fn check_c15(tier: Tier) -> i32 {
     let progs = program_list(&gr);
     let p = tier.pick(2, 2);
     run.rule = format!(
-        "ALL function bodies of the statement grammar with <= {} nodes / nesting <= 2 ({} programs covering every instruction kind incl. else, inner end and the final end) x ALL plans of <= {} injections over (instruction, mode) with mode in {{before, after, alternate, empty alternate}} (two injections on the same site and mode included, an alternate followed by a removal included; every plan also with one of its injections retracted again through clear_instr_at; thorough adds all plans of 3 injections on the programs with <= 2 nodes) x 9 API paths (module iterator, function modifier, component iterator; each through mode()+inject, inject_at and *_at+add_instr_at; quick rotates the path over the plans, thorough runs every path on every plan without a retraction). Oracle: the decoded instruction list of the function equals, instruction by instruction, before ++ (alternate | instruction) ++ after, with only before-code at the final end; the other function is unchanged. Non-trivial class = (multiset of (mode, instruction role), API path).",
+        "ALL function bodies of the statement grammar with <= {} nodes / nesting <= 2 ({} programs covering every instruction kind incl. else, inner end and the final end) x ALL plans of <= {} injections over (instruction, mode) with mode in {{before, after, alternate, empty alternate}} (two injections on the same site and mode included, an alternate followed by a removal included; every plan also with one of its injections retracted again through clear_instr_at, and every plan also with the iterator's finish_instr() called after each injection while it stands on the site; thorough adds all plans of 3 injections on the programs with <= 2 nodes) x 9 API paths (module iterator, function modifier, component iterator; each through mode()+inject, inject_at and *_at+add_instr_at; quick rotates the path over the plans, thorough runs every path on every plan without a retraction). Oracle: the decoded instruction list of the function equals, instruction by instruction, before ++ (alternate | instruction) ++ after, with only before-code at the final end; the other function is unchanged. Non-trivial class = (multiset of (mode, instruction role), API path).",
         gr.max_nodes,
         progs.len(),
         p
     );
     let mut cases = vec![];
+    let mut finished = vec![];
     for (pi, prog) in progs.iter().enumerate() {
         let em = emit(prog);
         let n_ops = em.roles[0].len();
@@ -763,6 +774,22 @@ pub fn check_c15(tier: Tier) -> i32 {
             }
         }
         let n_plain = plans.len();
+        // finished: the iterator's finish_instr() follows every injection while it still stands on the
+        // site (the mode is reset, the injected code stays) - iterator paths only
+        for (k, pl) in plans.iter().enumerate() {
+            let mut p2 = pl.clone();
+            for i in p2.iter_mut() {
+                i.finish = true;
+            }
+            let apis = [Api::IterMode, Api::CompMode, Api::IterInjectAt, Api::CompInjectAt];
+            if tier == Tier::Thorough {
+                for api in apis {
+                    finished.push(Case { program: prog.clone(), plan: p2.clone(), api });
+                }
+            } else {
+                finished.push(Case { program: prog.clone(), plan: p2, api: apis[(pi + k) % apis.len()] });
+            }
+        }
         plans.extend(retracted);
         for (k, plan) in plans.into_iter().enumerate() {
             // thorough: every path on every plain plan; the retracted variants rotate the path
@@ -776,6 +803,7 @@ pub fn check_c15(tier: Tier) -> i32 {
         }
     }
     run_cases_static(&mut run, "before/after/alternate plans", cases, false);
+    run_cases_static(&mut run, "plans with finish_instr after every injection", finished, false);
     if tier == Tier::Thorough {
         let small = program_list(&grammar_all(2, 2));
         let mut cases = vec![];
@@ -811,7 +839,7 @@ fn c21_cases(tier: Tier) -> Vec<Case> {
             Err(_) => continue,
         };
         let f = &m.funcs[0];
-        let mk = |k: usize, at: usize, empty: bool| Inj { at, mode: if empty { SMode::EmptyBlockAlt } else { SMode::BlockAlt }, c: 0x7200 + k as i32, drop_first: matches!(roles[at], Role::If), retract: false, encode_after: false };
+        let mk = |k: usize, at: usize, empty: bool| Inj { at, mode: if empty { SMode::EmptyBlockAlt } else { SMode::BlockAlt }, c: 0x7200 + k as i32, drop_first: matches!(roles[at], Role::If), retract: false, encode_after: false, finish: false };
         let region = |at: usize| -> (usize, usize) {
             match roles[at] {
                 Role::Else => (at, f.end_of[at]),
@@ -844,7 +872,7 @@ fn c21_cases(tier: Tier) -> Vec<Case> {
                         continue;
                     }
                     let mut p2 = pl.clone();
-                    p2.push(Inj { at, mode, c: 0x7300, drop_first: false, retract: false, encode_after: false });
+                    p2.push(Inj { at, mode, c: 0x7300, drop_first: false, retract: false, encode_after: false, finish: false });
                     with_probe.push(p2);
                 }
             }
@@ -893,7 +921,7 @@ fn c21_cases(tier: Tier) -> Vec<Case> {
                 for mode in modes {
                     for first in [false, true] {
                         let mut p2 = pl.clone();
-                        let probe = Inj { at, mode, c: 0x7301, drop_first: false, retract: false, encode_after: false };
+                        let probe = Inj { at, mode, c: 0x7301, drop_first: false, retract: false, encode_after: false, finish: false };
                         if first {
                             p2.insert(0, probe);
                         } else {
@@ -912,14 +940,169 @@ fn c21_cases(tier: Tier) -> Vec<Case> {
     cases
 }
 
+/// C21, special-mode probes OUTSIDE the replaced region ("all other instructions and their
+/// instrumentation are unaffected"): the function lowered with the probes alone (list A) and with the
+/// probes plus ONE block alternate (list B) must differ by exactly the replacement: B = A with the
+/// construct's instructions [opener ..= matching end] (else: [else .. end)) cut out and the replacement
+/// code in their place. How the probes themselves lower is C16-C20's business; here only that the
+/// replacement leaves it alone.
+pub fn judge_c21_outside(case: &Case) -> Result<(Vec<Mismatch>, u64), String> {
+    let em = emit(&case.program);
+    let orig = load(&em.bytes).map_err(|e| format!("{:?}", e))?;
+    let f = &orig.funcs[0];
+    let alt = case.plan.iter().find(|i| matches!(i.mode, SMode::BlockAlt | SMode::EmptyBlockAlt)).ok_or("no block alternate in the plan")?;
+    let probes: Vec<Inj> = case.plan.iter().filter(|i| !matches!(i.mode, SMode::BlockAlt | SMode::EmptyBlockAlt)).cloned().collect();
+    let desc = |i: &Inj| format!("{}@{}", i.mode.name(), role_at(&em.roles[0], i.at));
+    let mut descs: Vec<String> = case.plan.iter().map(desc).collect();
+    descs.sort();
+    let mut out = vec![];
+    let enc = |plan: &[Inj]| -> Result<Option<Vec<u8>>, String> {
+        match apply_and_encode(&em.bytes, plan, case.api, 1) {
+            Ok(v) => Ok(v.into_iter().next()),
+            Err((_, p)) if p.msg.starts_with("harness:") => Err(p.msg),
+            Err(_) => Ok(None),
+        }
+    };
+    // the probes alone: if the library refuses or fails on them, the replacement is not to blame
+    let a_bytes = match enc(&probes)? {
+        Some(b) => b,
+        None => return Ok((out, 0)),
+    };
+    let b_bytes = match apply_and_encode(&em.bytes, &case.plan, case.api, 1) {
+        Ok(v) => v.into_iter().next().unwrap(),
+        Err((applied, p)) => {
+            if p.msg.starts_with("harness:") {
+                return Err(p.msg);
+            }
+            out.push(Mismatch::new(format!("panic {} {} [{}] via {}", if applied { "encode" } else { "inject" }, p.site(), descs.join(", "), case.api.name()), format!("{} at {}:{} (the same probes without the block alternate lower fine)", p.msg, p.file, p.line)));
+            return Ok((out, 0));
+        }
+    };
+    let a = ops_of(&a_bytes, 0)?;
+    let b = ops_of(&b_bytes, 0)?;
+    let r: Vec<String> = if alt.mode == SMode::BlockAlt { code_of(alt).iter().map(|o| format!("{:?}", o)).collect() } else { vec![] };
+    let is_else = matches!(f.ops[alt.at], Operator::Else);
+    let region: Vec<String> = if is_else { f.ops[alt.at..f.end_of[alt.at]].iter().map(|o| format!("{:?}", o)).collect() } else { f.ops[alt.at..=f.end_of[alt.at]].iter().map(|o| format!("{:?}", o)).collect() };
+    // B = A[..p] ++ R ++ A[p + |region| ..] for a position p at which A holds the region
+    let mut ok = false;
+    if a.len() + r.len() == b.len() + region.len() {
+        for p in 0..=a.len().saturating_sub(region.len()) {
+            if a[p..p + region.len()] == region[..] && b.len() >= p + r.len() && a[..p] == b[..p] && b[p..p + r.len()] == r[..] && a[p + region.len()..] == b[p + r.len()..] {
+                ok = true;
+                break;
+            }
+        }
+    }
+    if !ok {
+        let sig_modes: Vec<String> = probes.iter().map(desc).collect();
+        out.push(Mismatch::new(
+            format!("outside-instrumentation disturbed [{} of {}; {}] via {}", alt.mode.name(), role_at(&em.roles[0], alt.at), sig_modes.join(", "), case.api.name()),
+            format!("with the probes alone the function is {:?}; with the block alternate added it is {:?}; expected the former with {:?} replaced by {:?}", a, b, region, r),
+        ));
+    }
+    let removes_if_without_replacement = alt.mode == SMode::EmptyBlockAlt && matches!(em.roles[0].get(alt.at), Some(Role::If));
+    if !removes_if_without_replacement && validate(&a_bytes, features_core()).is_ok() {
+        if let Err(e) = validate(&b_bytes, features_core()) {
+            out.push(Mismatch::new(format!("invalid-output with outside probes [{}]", descs.join(", ")), e));
+        }
+    }
+    Ok((out, hash_of(&b_bytes)))
+}
+
+fn c21_outside_cases(tier: Tier) -> Vec<Case> {
+    use Leaf::*;
+    let gr = Grammar { max_nodes: tier.pick(3, 4), max_depth: 3, leaves: vec![Mark, Nop, BrIf], blocks: true, loops: true, ifs: true, else_arms: true, conds: vec![Cond::A], results: 0 };
+    let progs = program_list(&gr);
+    let mut cases = vec![];
+    for (pi, prog) in progs.iter().enumerate() {
+        let em = emit(prog);
+        let roles = &em.roles[0];
+        let m = match load(&em.bytes) {
+            Ok(m) => m,
+            Err(_) => continue,
+        };
+        let f = &m.funcs[0];
+        let openers: Vec<usize> = roles.iter().enumerate().filter(|(_, r)| matches!(r, Role::Block | Role::Loop | Role::If | Role::Else)).map(|(i, _)| i).collect();
+        let mut k = 0usize;
+        for at in openers.iter().copied() {
+            let (s, e) = match roles[at] {
+                Role::Else => (at, f.end_of[at]),
+                _ => (at, f.end_of[at] + 1),
+            };
+            for empty in [false, true] {
+                let alt = Inj { at, mode: if empty { SMode::EmptyBlockAlt } else { SMode::BlockAlt }, c: 0x7200, drop_first: matches!(roles[at], Role::If), retract: false, encode_after: false, finish: false };
+                // every special-mode probe on an instruction outside the region (enclosing constructs and
+                // the `if` of a replaced `else` included)
+                let mut probes: Vec<(usize, SMode)> = vec![(0, SMode::FuncEntry), (0, SMode::FuncExit)];
+                for q in 0..roles.len() {
+                    if q >= s && q < e {
+                        continue;
+                    }
+                    match roles[q] {
+                        Role::Block | Role::If | Role::Else => probes.extend([(q, SMode::BlockEntry), (q, SMode::BlockExit), (q, SMode::SemanticAfter)]),
+                        Role::Loop => probes.extend([(q, SMode::BlockEntry), (q, SMode::BlockExit)]),
+                        Role::BrIf | Role::Br | Role::BrTable if !super::instr::branch_targets_loop_pub(f, q) => probes.push((q, SMode::SemanticAfter)),
+                        _ => {}
+                    }
+                }
+                for (q, mode) in probes {
+                    let probe = Inj { at: q, mode, c: 0x7302, drop_first: false, retract: false, encode_after: false, finish: false };
+                    for alt_first in [false, true] {
+                        // a function-level mode stays selected on the function (documented protocol:
+                        // function-level injections are made last)
+                        if !alt_first && matches!(mode, SMode::FuncEntry | SMode::FuncExit) {
+                            continue;
+                        }
+                        let plan = if alt_first { vec![alt.clone(), probe.clone()] } else { vec![probe.clone(), alt.clone()] };
+                        let api = [Api::IterMode, Api::ModAt, Api::CompMode, Api::IterAddInstrAt, Api::ModInjectAt][(pi + k) % 5];
+                        k += 1;
+                        cases.push(Case { program: prog.clone(), plan, api });
+                    }
+                }
+            }
+        }
+    }
+    cases
+}
+
 pub fn check_c21(tier: Tier) -> i32 {
     let mut run = Run::new("C21", tier, "exploration");
     let cases = c21_cases(tier);
     run.rule = format!(
-        "ALL function bodies with <= {} nodes / nesting <= 3 over block, loop, if, if-else, mark, nop, br_if x ALL plans of 1 or 2 block-alternates (non-empty `[drop;] i32.const c; drop` / empty) on block, loop, if, else openers - nested and sequential - plus every placement of one before/after probe outside the replaced regions (injected after and, separately, before the block alternates), plus every placement of one special-mode probe (block-entry, block-exit, semantic-after) on a construct strictly inside a replaced region (a body that is gone is never entered, left or passed: the probe must vanish with the region), plus every plan of two alternates made in two rounds with an encoding in between, rotated over 5 API paths. Oracle: an independent matcher deletes [opener ..= matching end] (else: [else .. end)) and inserts the replacement at the opener's place (outermost replacement wins for nested ones); the decoded instruction list must equal that, and the output must validate (a replaced `if` consumes its condition with `drop`).",
+        "ALL function bodies with <= {} nodes / nesting <= 3 over block, loop, if, if-else, mark, nop, br_if x ALL plans of 1 or 2 block-alternates (non-empty `[drop;] i32.const c; drop` / empty) on block, loop, if, else openers - nested and sequential - plus every placement of one before/after probe outside the replaced regions (injected after and, separately, before the block alternates), plus every placement of one special-mode probe (block-entry, block-exit, semantic-after) on a construct strictly inside a replaced region (a body that is gone is never entered, left or passed: the probe must vanish with the region), plus every plan of two alternates made in two rounds with an encoding in between, rotated over 5 API paths; plus ONE block alternate together with ONE special-mode probe (block-entry, block-exit, semantic-after on block/if/else and on branches that do not target a loop, function entry, function exit) on every instruction OUTSIDE the replaced region - enclosing constructs and the `if` of a replaced `else` included - in both call orders: the function lowered with the probe and the alternate must be the function lowered with the probe alone, with the construct's own instructions cut out and the replacement in their place. Oracle: an independent matcher deletes [opener ..= matching end] (else: [else .. end)) and inserts the replacement at the opener's place (outermost replacement wins for nested ones); the decoded instruction list must equal that, and the output must validate (a replaced `if` consumes its condition with `drop`).",
         tier.pick(3, 4)
     );
     run_cases_static(&mut run, "block alternates", cases, true);
+    {
+        let cases = c21_outside_cases(tier);
+        let family = "block alternate with a special-mode probe outside";
+        let results: Vec<Result<(Vec<Mismatch>, u64), String>> = cases
+            .par_iter()
+            .map(|c| match catch(|| judge_c21_outside(c)) {
+                Ok(r) => r,
+                Err(p) => Err(format!("harness panic: {} at {}:{}", p.msg, p.file, p.line)),
+            })
+            .collect();
+        for (c, r) in cases.iter().zip(results) {
+            match r {
+                Err(e) => run.machinery_error(format!("{}: {}", family, e)),
+                Ok((ms, h)) => {
+                    run.add_observed(h);
+                    let em = emit(&c.program);
+                    let mut class: Vec<String> = c.plan.iter().map(|i| format!("{}@{}", i.mode.name(), role_at(&em.roles[0], i.at))).collect();
+                    class.sort();
+                    run.add_class(family, &format!("{}|{}", class.join("+"), c.api.name()));
+                    for m in ms {
+                        run.add_mismatch(family, json!(c), m.sig, m.detail, 1);
+                    }
+                }
+            }
+        }
+        run.add_evaluations(family, cases.len() as u64);
+        if let Some(c) = cases.get(cases.len() / 2) {
+            run.add_sample(json!({"family": family, "case": c}));
+        }
+    }
     run.assumptions.push("no probe is placed on the opener of a replaced construct (the property does not say what happens to it); special-mode probes on constructs strictly inside a replaced region must vanish with it; plain before/after code attached to removed instructions is not judged (unspecified; the library keeps it); semantic-after probes on branches inside a region are not placed (their flag code may legitimately live outside the region)".into());
     run.finish()
 }
@@ -1014,6 +1197,7 @@ fn describe_seq(plan: &[Inj]) -> String {
     let pos = plan.iter().position(|i| i.c == 0x7400).unwrap_or(0);
     let first = &plan[pos];
     match plan.iter().find(|i| i.c != 0x7400) {
+        Some(o) if o.retract && o.c == 0x7404 => "followed by a withdrawn before probe elsewhere".to_string(),
         Some(o) if o.retract => "followed by a withdrawn injection of the same mode elsewhere".to_string(),
         Some(o) if o.mode != SMode::Before => format!("{} by {} elsewhere", if pos == 0 { "followed" } else { "preceded" }, o.mode.name()),
         Some(o) => {
@@ -1056,6 +1240,147 @@ fn judge_c22_seq(case: &Case) -> Result<Option<Mismatch>, String> {
     }
 }
 
+// ---- C22: special modes on functions that the API itself created ------------------------------
+#[derive(Clone, Debug, Serialize, Deserialize)]
+pub struct C22NewFn {
+    /// 0 = function that replaced the FIRST of two imported functions (replace_import_in_module),
+    /// 1 = function that replaced the LAST import, 2 = function added with finish_module,
+    /// 3 = a parsed local function of the same shape (control)
+    pub kind: u8,
+    pub mode: SMode,
+    /// 0 = function modifier *_at + inject, 1 = function modifier inject_at, 2 = module iterator mode() + inject
+    pub api: u8,
+}
+
+const C22_NEWFN_BASE: &str = r#"(module
+  (import "e" "a" (func $a)) (import "e" "b" (func $b))
+  (func $l (block (nop)) (i32.const 0x5F01) (drop) (call $a) (call $b))
+  (export "l" (func $l)))"#;
+
+fn c22_newfn_encode(c: &C22NewFn, inject: bool) -> Result<Vec<u8>, PanicInfo> {
+    use wirm::ir::function::FunctionBuilder;
+    use wirm::opcode::Opcode;
+    let bytes = wat::parse_str(C22_NEWFN_BASE).expect("harness: base assembles");
+    catch(|| {
+        let mut module = Module::parse(&bytes, false).expect("harness: base parses");
+        let mut fb = FunctionBuilder::new(&[], &[]);
+        fb.block(wirm::ir::types::BlockType::Empty);
+        fb.nop();
+        fb.end();
+        fb.i32_const(0x5F02);
+        fb.drop();
+        let fid = match c.kind {
+            0 | 1 => {
+                let name = if c.kind == 0 { "a" } else { "b" };
+                let imp = module.imports.find("e".to_string(), name.to_string()).expect("library: imports.find does not find a live import");
+                fb.replace_import_in_module(&mut module, imp);
+                FunctionID(c.kind as u32)
+            }
+            2 => fb.finish_module(&mut module),
+            _ => FunctionID(2),
+        };
+        if inject {
+            let func_level = matches!(c.mode, SMode::FuncEntry | SMode::FuncExit);
+            let empty = c.mode == SMode::EmptyBlockAlt;
+            let code = [Operator::I32Const { value: 0x7400 }, Operator::Drop];
+            let loc = Location::Module { func_idx: fid, instr_idx: 0 };
+            if c.api == 2 {
+                let mut it = ModuleIterator::new(&mut module, &vec![]);
+                loop {
+                    if let Location::Module { func_idx, instr_idx } = it.curr_loc().0 {
+                        if func_idx == fid && instr_idx == 0 {
+                            break;
+                        }
+                    }
+                    if it.next().is_none() {
+                        panic!("library: the module iterator never visits function {}", *fid);
+                    }
+                }
+                match c.mode {
+                    SMode::SemanticAfter => { it.semantic_after(); }
+                    SMode::BlockEntry => { it.block_entry(); }
+                    SMode::BlockExit => { it.block_exit(); }
+                    SMode::BlockAlt => { it.block_alt(); }
+                    SMode::EmptyBlockAlt => { it.empty_block_alt(); }
+                    SMode::FuncEntry => { it.func_entry(); }
+                    _ => { it.func_exit(); }
+                }
+                if !empty {
+                    for op in code {
+                        it.inject(op);
+                    }
+                }
+            } else {
+                let mut fm = module.functions.get_fn_modifier(fid).expect("library: get_fn_modifier refuses a function the API created");
+                let via_inject_at = c.api == 1 && !func_level && !empty;
+                if via_inject_at {
+                    for op in code {
+                        fm.inject_at(0, c.mode.imode().unwrap(), op);
+                    }
+                } else {
+                    match c.mode {
+                        SMode::SemanticAfter => { fm.semantic_after_at(loc); }
+                        SMode::BlockEntry => { fm.block_entry_at(loc); }
+                        SMode::BlockExit => { fm.block_exit_at(loc); }
+                        SMode::BlockAlt => { fm.block_alt_at(loc); }
+                        SMode::EmptyBlockAlt => { fm.empty_block_alt_at(loc); }
+                        SMode::FuncEntry => { fm.func_entry(); }
+                        _ => { fm.func_exit(); }
+                    }
+                    if !empty {
+                        for op in code {
+                            fm.inject(op);
+                        }
+                    }
+                }
+                fm.finish_instr();
+            }
+        }
+        module.encode()
+    })
+}
+
+fn all_ops(bytes: &[u8]) -> Vec<String> {
+    let mut out = vec![];
+    let mut i = 0;
+    while let Ok(v) = ops_of(bytes, i) {
+        out.extend(v);
+        i += 1;
+    }
+    out
+}
+
+pub fn judge_c22_newfn(c: &C22NewFn) -> Result<Option<Mismatch>, String> {
+    let plain = match c22_newfn_encode(c, false) {
+        Ok(b) => b,
+        Err(p) => return if p.msg.starts_with("harness:") { Err(p.msg) } else { Ok(None) },
+    };
+    let kind = ["function that replaced the first import", "function that replaced the last import", "function added with finish_module", "parsed local function"][c.kind as usize % 4];
+    let api = ["function-modifier *_at+inject", "function-modifier inject_at", "module-iterator mode()+inject"][c.api as usize % 3];
+    match c22_newfn_encode(c, true) {
+        Err(p) => {
+            if p.msg.starts_with("harness:") {
+                Err(p.msg)
+            } else {
+                Ok(None) // rejected at the call, or a loud failure
+            }
+        }
+        Ok(enc) => {
+            let got = all_ops(&enc);
+            let reflected = if c.mode == SMode::EmptyBlockAlt {
+                got.iter().filter(|o| o.as_str() == "Nop").count() < all_ops(&plain).iter().filter(|o| o.as_str() == "Nop").count()
+            } else {
+                got.iter().any(|o| o == "I32Const { value: 29696 }")
+            };
+            if reflected {
+                Ok(None)
+            } else {
+                Ok(Some(Mismatch::new(format!("silently-lost {} on a {} via {}", c.mode.name(), kind, api), "the injection was accepted and encoding succeeded, but no function of the encoded module contains it".to_string())))
+            }
+        }
+    }
+}
+
 pub fn check_c22(tier: Tier) -> i32 {
     let mut run = Run::new("C22", tier, "exploration");
     // covering programs: every instruction kind the special modes distinguish
@@ -1073,7 +1398,7 @@ pub fn check_c22(tier: Tier) -> i32 {
         for mode in modes {
             for api in ALL_APIS {
                 if matches!(mode, SMode::FuncEntry | SMode::FuncExit) {
-                    cases.push(C22Case { program: prog.clone(), inj: Inj { at: 0, mode, c: 0x7400, drop_first: false, retract: false, encode_after: false }, api });
+                    cases.push(C22Case { program: prog.clone(), inj: Inj { at: 0, mode, c: 0x7400, drop_first: false, retract: false, encode_after: false, finish: false }, api });
                     continue;
                 }
                 // one site per distinct instruction role (+ every site in the thorough tier)
@@ -1081,13 +1406,13 @@ pub fn check_c22(tier: Tier) -> i32 {
                 for (at, r) in roles.iter().enumerate() {
                     // (every instruction in both tiers: the space is tiny)
                     let _ = (&mut seen, tier);
-                    cases.push(C22Case { program: prog.clone(), inj: Inj { at, mode, c: 0x7400, drop_first: matches!(r, Role::If) && mode == SMode::BlockAlt, retract: false, encode_after: false }, api });
+                    cases.push(C22Case { program: prog.clone(), inj: Inj { at, mode, c: 0x7400, drop_first: matches!(r, Role::If) && mode == SMode::BlockAlt, retract: false, encode_after: false, finish: false }, api });
                 }
             }
         }
     }
     run.rule = format!(
-        "complete product: {{semantic-after, block-entry, block-exit, block-alt, empty-block-alt, func-entry, func-exit}} x 9 API paths (module iterator / function modifier / component iterator, each through mode()+inject, inject_at and *_at+add_instr_at) x every instruction role (thorough: every instruction) of 3 covering programs (block, loop, if, else, br, br_if, br_table to block / function label, plain instructions, inner ends, final end). Oracle: the call panics (= rejected at the call) or encoding fails loudly or the probe's unique constant occurs in the encoded function (empty-block-alt: the construct is gone); accepted-then-absent is the violation. {} cases.",
+        "complete product: {{semantic-after, block-entry, block-exit, block-alt, empty-block-alt, func-entry, func-exit}} x 9 API paths (module iterator / function modifier / component iterator, each through mode()+inject, inject_at and *_at+add_instr_at) x every instruction role (thorough: every instruction) of 3 covering programs (block, loop, if, else, br, br_if, br_table to block / function label, plain instructions, inner ends, final end). Oracle: the call panics (= rejected at the call) or encoding fails loudly or the probe's unique constant occurs in the encoded function (empty-block-alt: the construct is gone); accepted-then-absent is the violation. {} cases. Call sequences: each reflected injection followed / preceded by a before probe (same and another instruction), by a second special-mode injection of any mode elsewhere, followed by a withdrawn injection of the same mode elsewhere and by a withdrawn before probe elsewhere (clear_instr_at). API-created functions: the 7 modes x 3 paths on a function that replaced the first / the last of two imports (replace_import_in_module), on a function added with finish_module, and on a parsed function of the same shape.",
         cases.len()
     );
     let results: Vec<Result<(Vec<Mismatch>, String, u64, bool), String>> = cases.iter().map(|c| match catch(|| judge_c22(c)) { Ok(r) => r, Err(p) => Err(format!("harness panic {}", p.msg)) }).collect();
@@ -1140,7 +1465,7 @@ pub fn check_c22(tier: Tier) -> i32 {
                 seconds.push(c.inj.at);
             }
             for at2 in seconds {
-                let o = Inj { at: at2, mode: SMode::Before, c: 0x7401, drop_first: false, retract: false, encode_after: false };
+                let o = Inj { at: at2, mode: SMode::Before, c: 0x7401, drop_first: false, retract: false, encode_after: false, finish: false };
                 let same = if at2 == c.inj.at && !func_level { "same instruction" } else { "another instruction" };
                 seqs.push((Case { program: c.program.clone(), plan: vec![c.inj.clone(), o.clone()], api: c.api }, c.inj.c, format!("followed by before on {}", same)));
                 seqs.push((Case { program: c.program.clone(), plan: vec![o, c.inj.clone()], api: c.api }, c.inj.c, format!("preceded by before on {}", same)));
@@ -1169,18 +1494,24 @@ pub fn check_c22(tier: Tier) -> i32 {
                                 continue;
                             }
                         }
-                        let o = Inj { at: at2, mode: mode2, c: 0x7403, drop_first: matches!(roles[at2], Role::If) && mode2 == SMode::BlockAlt, retract: false, encode_after: false };
+                        let o = Inj { at: at2, mode: mode2, c: 0x7403, drop_first: matches!(roles[at2], Role::If) && mode2 == SMode::BlockAlt, retract: false, encode_after: false, finish: false };
                         seqs.push((Case { program: c.program.clone(), plan: vec![c.inj.clone(), o.clone()], api: c.api }, c.inj.c, String::new()));
                         seqs.push((Case { program: c.program.clone(), plan: vec![o, c.inj.clone()], api: c.api }, c.inj.c, String::new()));
                     }
                 }
+            }
+            // (d) followed by an ordinary `before` probe on another instruction that is withdrawn again with
+            //     clear_instr_at(loc, Before): taking an unrelated probe back must not take this one along
+            if func_level || c.inj.at != plain {
+                let w = Inj { at: plain, mode: SMode::Before, c: 0x7404, drop_first: false, retract: true, encode_after: false, finish: false };
+                seqs.push((Case { program: c.program.clone(), plan: vec![c.inj.clone(), w], api: c.api }, c.inj.c, "followed by a withdrawn before probe elsewhere".to_string()));
             }
             if !func_level {
                 for (at2, r2) in roles.iter().enumerate() {
                     if at2 == c.inj.at || !reflected_alone.contains(&(pi, c.inj.mode.name().to_string(), at2, c.api.name().to_string())) {
                         continue;
                     }
-                    let w = Inj { at: at2, mode: c.inj.mode, c: 0x7402, drop_first: matches!(r2, Role::If) && c.inj.mode == SMode::BlockAlt, retract: true, encode_after: false };
+                    let w = Inj { at: at2, mode: c.inj.mode, c: 0x7402, drop_first: matches!(r2, Role::If) && c.inj.mode == SMode::BlockAlt, retract: true, encode_after: false, finish: false };
                     seqs.push((Case { program: c.program.clone(), plan: vec![c.inj.clone(), w], api: c.api }, c.inj.c, "followed by a withdrawn injection of the same mode elsewhere".to_string()));
                 }
             }
@@ -1200,6 +1531,25 @@ pub fn check_c22(tier: Tier) -> i32 {
             }
         }
         run.add_evaluations("special modes in call sequences", seqs.len() as u64);
+    }
+    {
+        let mut nf = vec![];
+        for kind in 0..4u8 {
+            for mode in modes {
+                for api in 0..3u8 {
+                    nf.push(C22NewFn { kind, mode, api });
+                }
+            }
+        }
+        for c in nf.iter() {
+            run.add_class("special modes on API-created functions", &format!("{}|{}|{}", c.kind, c.mode.name(), c.api));
+            match judge_c22_newfn(c) {
+                Err(e) => run.machinery_error(e),
+                Ok(Some(m)) => run.add_mismatch("special modes on API-created functions", json!(c), m.sig, m.detail, 1),
+                Ok(None) => {}
+            }
+        }
+        run.add_evaluations("special modes on API-created functions", nf.len() as u64);
     }
     run.add_evaluations("special modes x api paths x instruction kinds", cases.len() as u64);
     if let Some(c) = cases.get(cases.len() / 3) {
@@ -1231,7 +1581,7 @@ pub fn reencode_family(run: &mut Run, tier: Tier) {
                     SMode::FuncEntry | SMode::FuncExit => at == 0,
                 };
                 if ok {
-                    singles.push(Inj { at, mode, c: 0x7500, drop_first: matches!(r, Role::If) && mode == SMode::BlockAlt, retract: false, encode_after: false });
+                    singles.push(Inj { at, mode, c: 0x7500, drop_first: matches!(r, Role::If) && mode == SMode::BlockAlt, retract: false, encode_after: false, finish: false });
                 }
             }
         }
@@ -1298,6 +1648,15 @@ pub fn reencode_family(run: &mut Run, tier: Tier) {
 
 pub fn replay(id: &str, family: &str, case: &serde_json::Value) -> Vec<Mismatch> {
     if id == "C22" {
+        if case.get("kind").is_some() {
+            return match serde_json::from_value::<C22NewFn>(case.clone()) {
+                Ok(c) => match judge_c22_newfn(&c) {
+                    Ok(m) => m.into_iter().collect(),
+                    Err(e) => vec![Mismatch::new("machinery", e)],
+                },
+                Err(e) => vec![Mismatch::new("replay-case-unreadable", e.to_string())],
+            };
+        }
         if case.get("plan").is_some() {
             let c: Case = match serde_json::from_value(case.clone()) {
                 Ok(c) => c,
@@ -1328,7 +1687,12 @@ pub fn replay(id: &str, family: &str, case: &serde_json::Value) -> Vec<Mismatch>
             _ => vec![],
         };
     }
-    let _ = family;
+    if id == "C21" && family == "block alternate with a special-mode probe outside" {
+        return match judge_c21_outside(&c) {
+            Ok((ms, _)) => ms,
+            Err(e) => vec![Mismatch::new("machinery", e)],
+        };
+    }
     match judge(&c, id == "C21") {
         Ok((ms, _)) => ms,
         Err(e) => vec![Mismatch::new("machinery", e)],
